@@ -1,3 +1,4 @@
+import CasbinV.Model.Basic
 /-!
 # Model of `CoreEnforcer.enforce_ex` (casbin/core_enforcer.py) and of the effectors
   (casbin/effect/default_effectors.py, casbin/effect/__init__.py)
@@ -12,8 +13,6 @@ Python → Lean:
   zero-ness, and Python truthiness (used only by the empty-policy branch).
 * exceptions are `Except Err`.
 -/
-deriving instance DecidableEq for Except
-
 namespace Casbin
 
 inductive Eft | allow | indet | deny
